@@ -25,7 +25,7 @@ def event_matches(fn):
     enclosing loop, leave-target ids, and whether the scrutinee is Result-wrapped."""
     out = []
     for n, anc in walk_anc(fn.body):
-        if n.get("k") != "Match" or n.get("src") not in ("Normal", None):
+        if n.get("k") != "Match" or n.get("src") not in ("Normal", None, "IfLet"):
             continue
         if not _contains_read_event(n["scrut"]):
             continue
